@@ -4,7 +4,7 @@
    longer overwrites PrevHash): the block is verified and stored as submitted,
    so `chain s' = b :: chain s` says the stored header is the signed header. *)
 From Sky Require Import Base.Uint Model.Ledger Model.LedgerSpec Model.LedgerObs Model.LedgerReplay
-  Proofs.LedgerBasics Proofs.LedgerProofs Proofs.LedgerAppend
+  Proofs.LedgerBasics Proofs.LedgerProofs Proofs.LedgerAppend Proofs.LedgerArb
   Proofs.LedgerExample.
 Open Scope Z_scope.
 
@@ -83,6 +83,29 @@ Theorem C04_exec_block_pieces : forall s b, exec_block s b =
   end.
 Proof. exact exec_block_pieces. Qed.
 Print Assumptions C04_exec_block_pieces.
+
+(* ---- ARBITRATING node: the same header-level rule; the stored block has the
+   offered (signed) header and a body that is a part of the offered body *)
+Theorem C04_append_sound_arb : forall s b s', step_arb s (ExecBlock b) = (s', Accepted) ->
+  exists head rest stored,
+    chain s = head :: rest /\
+    b_sig_ok b = true /\
+    h_seq (b_head b) = wrap 64 (h_seq (b_head head) + 1) /\
+    h_time (b_head head) < h_time (b_head b) /\
+    h_prev (b_head b) = b_hash head /\
+    b_body_actual b = h_body (b_head b) /\
+    h_uxhash (b_head b) = xorsum s /\
+    (forall g, genesis_of (chain s) = Some g -> b_hash g <> b_hash b) /\
+    ~ In (b_hash b) (map b_hash (chain s)) /\
+    chain s' = stored :: chain s /\
+    b_head stored = b_head b /\ b_hash stored = b_hash b /\ b_sig_ok stored = b_sig_ok b /\
+    incl (b_txns stored) (b_txns b) /\ txns_ok (utxo s) head (b_txns stored).
+Proof. exact append_sound_arb. Qed.
+Print Assumptions C04_append_sound_arb.
+
+Theorem C04_reject_noop_arb : forall s o s' out, step_arb s o = (s', out) -> out <> Accepted -> s' = s.
+Proof. exact reject_noop_arb. Qed.
+Print Assumptions C04_reject_noop_arb.
 
 (* non-vacuity: block 1 is appended; a validly signed block naming another
    parent (the F1 input) and a resubmitted genesis block are refused *)
